@@ -76,7 +76,7 @@ class Ctx:
         return sym_of(self.schema, self.schema[sym['n']]['ns'], self.schema[sym['n']]['t'])
 
     # TypeScript type of a symbolic type, seen from namespace cur
-    def ts(self, sym, cur):
+    def ts(self, sym, cur, expand=True):
         k = sym['k']
         if k in ('int', 'float'):
             return 'number'
@@ -91,11 +91,14 @@ class Ctx:
         if k == 'list':
             return 'Array<%s>' % self.ts(sym['e'], cur)
         if k == 'map':
-            return '{[key: string]: %s}' % self.ts(sym['v'], cur)
+            # the mapped type of a map VALUE is the type's name: a struct with enumerated subtypes is named by its
+            # root, not by the union of its references (pinned by the repository's own test_tsd_types_for_union:
+            # `mapfield: {[key: string]: A}`); list items below that value are expanded again
+            return '{[key: string]: %s}' % self.ts(sym['v'], cur, expand=False)
         if k == 'nullable':
-            return self.ts(sym['e'], cur)
+            return self.ts(sym['e'], cur, expand)
         q = '' if sym['ns'] == cur else sym['ns'] + '.'
-        if k == 'struct' and self.subs_of(sym['n']):
+        if k == 'struct' and expand and self.subs_of(sym['n']):
             names = [('' if self.schema[s]['ns'] == cur else self.schema[s]['ns'] + '.') + s + 'Reference'
                      for s in self.subs_of(sym['n'])]
             if self.schema[sym['n']]['catchall']:
